@@ -413,7 +413,7 @@ def run(ctx):
     out = C.harness("dl-c15", ["cases", "--tier", ctx.tier], timeout=3000)
     cfgs, cfg_ids, layouts, lay_ids = {}, {}, {}, {}
     cases = []          # (id, coq term, info)
-    resolution, conversion, e2e, bundles, multi = [], [], [], [], []
+    resolution, conversion, e2e, bundles, multi, warm = [], [], [], [], [], []
     for line in out.splitlines():
         p = line.split(" ")
         kind = p[0]
@@ -439,6 +439,8 @@ def run(ctx):
             bundles.append(p)
         elif kind == "M":
             multi.append(p)
+        elif kind == "W":
+            warm.append(p)
         elif kind == "I":
             cases.append((len(cases), "TI %s %s %s" % (q(hx(p[1])), q(hx(p[2])), coq_list(q(hx(x)) for x in p[3:])),
                           {"kind": "I", "line": line}))
@@ -657,6 +659,25 @@ def run(ctx):
 
     ctx.stream("bundles of two modules in different folders that write the same require spelling: files in the bundle vs the "
                "locator hook applied from each module", len(multi), multi_distinct, [], mismatches=len(multi_bad))
+
+    # the .luaurc lookup cache is shared by the files of one run: warm (other files of the layout resolved first, in
+    # either order) vs cold (first lookup of a run)
+    warm_bad = [p for p in warm if p[7] != p[6] or p[8] != p[6]]
+    warm_found = sum(1 for p in warm if not p[6].startswith("!"))
+    ctx.stream("find_require with a warm .luaurc cache (the other requiring files of the layout resolved first, both "
+               "orders) vs a cold cache", len(warm), warm_found, [], mismatches=len(warm_bad))
+
+    def shown(x):
+        return x if x.startswith("!") else unhex(x)
+    for p in warm_bad[:2]:
+        ctx.violation("a require resolves to a different file when other files of the same run were resolved before it "
+                      "(.luaurc cache)",
+                      {"config": p[1], "layout": p[2], "requiring_file": unhex(p[3]), "require": unhex(p[4]), "mask": p[5],
+                       "cold": shown(p[6]), "after_the_other_files": shown(p[7]), "after_the_other_files_reversed": shown(p[8]),
+                       "luaurc": [(d, al) for d, al in layouts[p[2]]["rc"]],
+                       "replay": "in one run (no clear_luau_configuration_cache in between) resolve the same require "
+                                 "from the other requiring files of the layout, then from this one"},
+                      key="warm-cache:%s:%s:%s:%s" % (p[1], p[2], unhex(p[3]), unhex(p[4])))
 
     # ---- verdicts
     for key, (count, witness) in sorted(res_dev.items()):
